@@ -5,6 +5,7 @@
   * a rejection names a defect that is present.
 -/
 import GrogModel.Lemmas.AnalysisConstraints
+import GrogModel.Lemmas.AnalysisCycle
 namespace Grog.Analysis
 open Grog Grog.Paths Spec
 
